@@ -52,3 +52,119 @@ chk("C21", "round-trip / minimality monitor against independent reference encode
 chk("C15", "repetition monitor: identical observables across fresh engines in-process and across child processes with fresh map seeds",
     "1200 / 30000 generated map-centric NeoVM programs (2-11 entries of mixed value kinds; in ~45% one entry is the map itself, an array holding the map, or nested beyond the depth limit; REMOVE; sinks: Serialize, Notify, Storage.Put(Serialize), KEYS, VALUES, map as return value, serialize-deserialize-serialize) are each pre-executed and block-executed (charged, so gas shows in the write set) 6x in-process and once in each of 2-4 child processes; success/failure, return value, notifications, gas and write-set hash must be identical.",
     "the text of an error message is not an observable of the statement (only success/failure is); order dependence with probability p per run escapes with (1-p)^8..10")
+
+chk("C03", "model-based + metamorphic monitor on the real OverlayDB/MemDB",
+    "The change hash must equal sha256 over the sorted key||value content of a Go-map model and the write set must enumerate exactly the model in ascending order; the same final map is re-created by 7 further operation sequences (sorted, permuted, overwrite-then-restore, delete-then-recreate, same value twice, routed through CacheDB transactions incl. discarded ones, after Reset) which must all give the same hash and write set. 20000 / 400000 final maps x 8 sequences.",
+    "keys 0-40 bytes over a small alphabet, histories of 1-400 ops over a pre-populated store")
+
+chk("C04", "model-based state machine on the real CacheDB -> OverlayDB -> LevelDB(mem) stack, compared after every operation",
+    "A three-layer Go-map model is compared with the real stack after EVERY op over the whole key universe: Get at all three levels, write-set enumeration, and prefix iterators (8 prefix kinds) at cache/overlay/store level - outside-prefix, order, duplicates, deleted keys, extra/missing keys, values, Error(), termination. 14 JoinIter situations are counted from the model and required. 200k / 3.2M ops.",
+    "key universe <= 24 keys sharing prefixes; iterators held open across writes are exercised through C44 only")
+
+chk("C44", "layer-model monitor for migrate/clean at CacheDB level + ledger-level VM scenarios",
+    "Contract storage spread over persistent store, block overlay and tx cache (all 17 placement combinations, tombstones, byte-neighbour contract addresses, addresses ending 0x00/0xff) is migrated / cleaned (also chained, in the same tx, after a tx commit, in the next block) and compared with a model at every level and phase: every old entry readable under the new address, none live under the old one, neighbours untouched, destroyed marker per tracking height.",
+    "VM-level oracle (Contract.Migrate/Destroy scripts on a ledger) see runVMLevel; migrate-to-self / to-destroyed refused by ContractMigrate are out of domain")
+
+chk("C06", "token-ledger reference model + conservation / authorization invariants on committed state after real invoke transactions",
+    "Every ONT/ONG transfer, transferV2, approve, approveV2, transferFrom, transferFromV2 call is a signed invoke tx in a real block (solo, polaris and main network ids); after every block: sum over all balance keys per token unchanged and equal to total supply, no negative item, success only with the debited account's witness or a sufficient decremented allowance, blocks where no call took effect leave the whole dump identical, balances/allowances equal the model. 10.7k / 322k calls.",
+    "unbound-ONG side channel checked for shape only (amounts are C09's subject)")
+
+chk("C07", "ONG-conservation / nonce / fee invariant monitor around the real HandleEIP155Transaction + real blocks",
+    "Generated EVM programs (SSTORE set/clear, CALL with value to fresh/EOA/contract/self/precompile, CREATE children, REVERT, INVALID, OOG loops, SELFDESTRUCT to other and to self) x balances x gas prices x gas limits x nonces: per applied tx sum of all ONG balance keys unchanged, nonce +1 whatever the VM outcome, debit <= gasLimit*price+value, fee receiver credited UsedGas*price, only logged parties change; wrong nonce => error and raw state unchanged, block rejected by ExecuteBlock and AddBlock. 3.3k / 61k txs.",
+    "chain id 12345 (solo); known finding: SELFDESTRUCT to self burns ONG")
+
+chk("C08", "observation-vector equality monitor on the real StateDB over CacheDB/OverlayDB",
+    "Random histories of SetState/SetNonce/SetCode/Add-/SubBalance/Suicide/AddLog/AddRefund/SubRefund with nested Snapshot/RevertToSnapshot/DiscardSnapshot (depth <= 12, revert of inner and outer snapshots): the vector of GetState, GetCommittedState, nonce, code/hash/size, balance, suicided, Exist, Empty, refund, logs over 6 addresses x 4 slots must equal the one stored at Snapshot() after every revert and be unchanged by Snapshot/Discard. 4000 / 100000 histories.",
+    "discard restricted to the innermost snapshot (EVM discipline)")
+
+chk("C10", "invariant monitor around every epoch settlement of the real governance contract driven by signed invoke transactions",
+    "Generated governance histories (register/authorize/unauthorize/withdraw/quit/black/white/penalty/initPos/peer cost/fee percentage/global params/gas address/fee withdrawals/ONG income, ~18% invalid ops) on real solo ledgers and, for chosen heights, through the production HandleInvokeTransaction on a copy of the state (both engines cross-checked in lock-step): per settlement sum of credit deltas + dapp share <= income, each credit monotone and <= income, sum of credits <= governance ONG, and every credited address can withdrawFee exactly its amount. ~1160 / 19000 settlements.",
+    "solo network id only (current fee formulas); genesis deposit of sum(InitPos) assumed as at the real launch")
+
+chk("C11", "conservation monitor over the same governance driver, evaluated after every operation",
+    "After EVERY operation (successful or not): ONT.balanceOf(governance) == sum TotalStake + sum PenaltyStake(InitPos+AuthorizePos) enumerated by key prefix over the state dump; a failed op leaves the whole storage dump unchanged; ONT paid out <= unfrozen position read just before; cumulative withdrawn <= cumulative deposited per address. 12.4k / 162k ops.",
+    "same assumptions as C10")
+
+chk("C12", "process-survival monitor: generated cases run in supervised child processes, each case logged before execution",
+    "NeoVM programs (self-referencing containers at every element position, nests to depth 1100, every syscall with random argument stacks, every registered native method with random / hostile-length / structured arguments, resource extremes, opcode soup, raw bytes) and EVM cases (raw, generated, all precompiles with hostile lengths) go through PreExecuteContract, free and charged ExecuteBlock, PreExecuteEip155Tx and EIP-155 block execution; a panic escaping an entry point, a fatal runtime error, a signal or growth beyond the memory bound is a violation with the logged case as witness; a stall is inconclusive.",
+    "WASM not driven; multi-step scenarios (e.g. governance settlement with zero-stake peers, ontid removeKeyByController index 0 - both seen to panic by other monitors' drivers, see DESIGN 10) are outside the generators")
+
+chk("C13", "differential monitor: real NeoVM executor vs math/big on boundary-exhaustive and random operands in three operand representations",
+    "26 opcodes as real scripts; result compared as big.Int and as re-encoded bytes with the exact math/big result; out-of-bound results, division by zero and negative shifts must fault; every case in minimal-bytes, sign-padded and VM-produced-integer representations. 25-value boundary set exhaustive (23k tuples) + 100k / 5M random.",
+    "three known findings (DIV MinInt64/-1, INVERT 2^256-1, SHR count >= 2^64)")
+
+chk("C14", "round-trip + cycle-rejection monitor with child-process supervision of every cyclic case",
+    "Acyclic values within limits must serialize deterministically, deserialize to a structurally equal value (own comparer) and re-serialize identically, shared sub-values must not be rejected; arbitrary / mutated bytes must not panic and accepted values must be re-serialization fix points; cycles closed at first/middle/last position or map entry, through 1-3 containers, must make Serialize and BuildParamToNative return an error and Stringify/Dump/ConvertNeoVmValueHexString terminate (each item in a child process).",
+    "detector's own answer is recorded, not judged")
+
+chk("C16", "construction-truth + independent re-verification monitor around the real VerifyTransaction with ~150 mutants per transaction",
+    "Valid-by-construction transactions (all 7 key types, single and m-of-n, 1-16 signature sets) must be accepted and every mutant rejected: flips of the unsigned content, flips in each required signature, signature by another key / over another hash, duplicated signer, too few / truncated signatures, payer not a signer, m changed without re-deriving the payer, payer set dropped, n>16, m=0, m>n, >16 sets, off-curve key; everything accepted is re-verified with ontology-crypto only (>= m distinct keys, payer among the accounts). 50k / 473k evaluations.",
+    "surplus signatures beyond m are observations (domain note in DESIGN)")
+
+chk("C17", "differential monitor: unvalidated vs validated vs child-process decode of the same bytes, against an independent account derivation",
+    "For every accepted transaction the signer-address sets of an unvalidated copy, a validated copy, a queried-then-validated copy and a decode in a child process must be equal to each other and to the monitor's own derivation, and CheckWitness must agree on all copies for the union plus near-miss and random addresses; workload sweeps key type x encoding x push form, all permutations for n<=4, n=2..16 x 4 ways of writing n, 1-16 sets. 2000 / 60000 cases.",
+    "fires if e5cf792b is reverted")
+
+chk("C19", "round-trip + mutation monitor on both transaction decoders with an independent wire/RLP re-encoder",
+    "Every input through TransactionFromRawBytes and Deserialization: accepted => ToArray()==consumed bytes and == own re-encoding; hash = sha256d(unsigned prefix) (Ontology format, independent of signatures, dependent on every unsigned field) or keccak(rlp) with recovered sender = payer (EIP-155); > MAX_TX_SIZE rejected; flips, truncation, append, non-minimal varuints at every length field, non-canonical RLP families, semantic EIP mutations, signature-set variants, random and spliced strings. 923k / 44.6M evaluations.",
+    "EIP-155 hash includes the signature by Ethereum's definition (DESIGN C19)")
+
+chk("C20", "round-trip + mutation monitor on both block decoders with an independent re-encoder",
+    "Accepted block => ToArray()==consumed bytes == own re-encoding, tx root = merkle root of the decoded list, no repeated tx hash, block hash = sha256d of the 9 unsigned header fields (changes with each of them, not with bookkeepers/signatures); reorder / duplicate (incl. root-preserving duplicate-tail shapes) / drop / replace / add / count mutations must be rejected; alternative bookkeeper key encodings; per-region flips, truncation, non-minimal prefixes. 313k / 5.6M evaluations.",
+    "")
+
+chk("C23", "parse-back / order-freedom monitor on the real program builder and parser",
+    "All single keys round-trip; key sets of size 2-16 x every threshold x 4 orderings give byte-identical scripts/addresses, parse back to (sorted keys, m), distinct address per threshold and key set; invalid (n,m) rejected by encoder and parser (12 hand-assembled families); byte strings never panic and accepted ones satisfy 1<=m<=n<=16. 119k / 4.5M evaluations.",
+    "")
+
+chk("C24", "structured round-trip + child-supervised hostile decoding of every p2p message type",
+    "All 21 message types: WriteMessage -> ReadMessage -> WriteMessage byte-identical and deep-equal; valid header + hostile payload (every prefix, every byte position overwritten with a count grid {0,1,MAX,MAX+1,2^31,2^32-1,2^63,2^64-1,...} as u8/u16/u32/u64/varuint, random edits, alternative key encodings) and hostile streams (magic, length, checksum, truncation at every offset): no panic / fatal error (child per batch, case logged first), bounded large-object allocation, accepted messages re-serialize to the consumed bytes. 447k / 10M cases.",
+    "Addr/Inv clamps and 3 other documented leniencies are counted as exempt")
+
+chk("C25", "round-trip + child-supervised hostile decoding of the cross-VM codec",
+    "Generated nested values (lists to depth 6, bytes, strings, addresses, bools, big ints over the i128 range, hashes) encode and decode to deep-equal values consuming all bytes, also through DeserializeCallParam / DeserializeNotify; out-of-range integers refused at every depth; hostile bytes (all 1-2 byte strings, random, mutated, forged lengths, 20000-level nests, giants at the 64 KiB / 1 MiB / 10 MiB production limits) must not panic, overflow the stack or allocate beyond 128*len+4MiB, accepted values re-encode to the consumed bytes. 112k / 6.7M evaluations.",
+    "")
+
+chk("C26", "reference-implementation differential (own RFC 6962 / RFC 9162 code) + exhaustive single-mutation rejection, exhaustive up to a bound",
+    "For all tree sizes up to N (64 quick / 300 thorough): incremental root = reference head, look-ahead roots without mutation, inclusion proofs for all (m,n) and consistency proofs for all (m,n) equal the reference and verify; every single mutation (leaf, index, size, root, each proof element flipped / dropped / duplicated / swapped, appended, prepended) must be rejected; file-backed tree reloaded at every size in 4 file shapes; sampled sizes around 2^k up to 2^16.",
+    "exhaustive only up to N; tree-size mutants that RFC heads cannot distinguish are judged by the reference verifier", category="exploration")
+
+chk("C27", "positive/negative proof monitor for cross-chain merkle paths against an own reference",
+    "For every list size up to 33 / 257: every member's MerkleLeafPath proves exactly that value; no mutated path (value bytes, interior-node preimages, direction flags, siblings, truncation/extension by every k in 1..70, foreign steps, cross-list paths/roots, arbitrary bytes) proves a value whose leaf hash is not in the list. 555k / 11.3M evaluations.",
+    "paths with ignored trailing bytes that still prove a member are malleability, counted not flagged")
+
+chk("C28", "threshold-measurement monitor: smallest accepted signer set probed on the real acceptance functions; exhaustive up to a bound",
+    "Thresholds are measured, not read: getCommitConsensus (7 shapes, every (N,C) with 4<=N<=400), the real BlockPool commitDone / endorse-signature fallback / endorseDone with real signatures, validation.VerifyBlock, the non-VBFT ledger verifyHeader and AddressFromBookkeepers' m for N<=16(40); each quorum-type pair must satisfy t_a+t_b-N >= C+1, endorse threshold >= C+1.",
+    "bounded: N<=400 (counting probes), N<=16/40 (signature probes); the unbounded claim is out of reach of any finite run")
+
+chk("C29", "invariant monitor on the real participant selection over configs produced by the real GenesisChainConfig",
+    "C+1 distinct proposers, >=2C+1 distinct endorsers and committers, all members of the config, no panic; identical output on repetition, after a JSON copy, and in child processes; selection seed depends only on (height, proposer, vrf). N 4..40, 8 stake shapes + degenerate hand-made tables. 23k / 2.1M evaluations.",
+    "")
+
+chk("C30", "metamorphic monitor on the real GenesisChainConfig and the production GetPeersConfig path",
+    "One config digest under 20 input orders (incl. real Go map iterations in-process and in 3/50 child processes through vbft.GetPeersConfig on an overlay), selected peers are a top-K set, PosTable holds only selected indices each at least once, more stake => at least as many slots. 5000 / 200000 peer sets.",
+    "which equal-stake peer is taken at the K boundary is not fixed by the statement (observation counter)")
+
+chk("C31", "adversarial-message monitor on the real BlockPool with own signature verification",
+    "Honest and forged commit/endorse message sets (one faulty committer naming arbitrary endorser indices with garbage / empty / truncated / replicated / swapped / other-hash signatures, non-member indices, duplicates, two proposers, empty commits; 70% shuffled) are fed through newBlockCommitment/newBlockEndorsement; whenever commitDone declares (p, done) the set of peers with a signature verifying over p's block hash (own verification) plus p must reach N-(N-1)/3. 10k / 100k cases.",
+    "known finding: signatures valid over another hash than the proposal's are counted (hash not bound to the proposal)")
+
+chk("C32", "forged-header monitor on real VBFT ledgers with own distinct-valid-signer count",
+    "On VBFT ledgers with N in {4,7,10} candidate next headers with 16 shapes of bookkeeper / signature lists (members, non-members, duplicates, listed-but-not-signing, repeated signatures, other-hash, garbage) are offered as bytes to AddHeaders and AddBlock; acceptance with fewer than C+1 distinct members having a verifying signature is a violation; the ledger is restored from a snapshot after every acceptance. 2000 / 40000 headers.",
+    "")
+
+chk("C33", "forged-header monitor on the header-sync native contract through real invoke transactions",
+    "syncGenesisHeader (operator-signed) then syncBlockHeader with 18 shapes of forged side-chain headers per n in {4,7,10}; acceptance is read from committed state; accepted => 3*D >= 2*n for D = distinct stored peers with a verifying signature (own count). 1500 / 40000 headers.",
+    "")
+
+chk("C34", "cluster run of real vbft.Server processes behind a fault-injecting hub + offline agreement checker over recorded seal histories",
+    "N=4,C=1 (and N=7,C=2 in thorough) real nodes (NewVbftServer+Start, real tx pool and ledger, one OS process each) exchange signed consensus payloads only through the hub, which after a warm-up applies a seeded schedule: delays/reordering, loss, duplication, intermittent partitions, and <=C Byzantine peers run as equivocating twins (two processes with the same key shown to different audiences) or as a withholding peer; every honest node's (height, hash) history is read through its ledger; verdict: agreement at every height.",
+    "wall-clock timers: schedules are not bit-reproducible; safety only, tens of schedules; forged-content messages are C31's subject")
+
+chk("C41", "role/delegation reference model vs pre-executed and in-block verifyToken, both directions",
+    "Real registered ONT IDs, two contracts (script-addressed and APPCALL proxy), ~30 steps per history of admin init/transfer, role assignment, delegation, withdrawal with controlled block times; after every step verifyToken for every (contract, caller, fn) that is or recently was positive plus sampled negatives and 5 key-control variants, incl. time==expiry and expiry+1, must equal the model. 99k / 997k evaluations.",
+    "known finding: assignment while holding a delegation is silently dropped")
+
+chk("C45", "authorization-soundness model over all 39 drivable mutating ontid methods through real signed transactions",
+    "4 identities x 30-50 ops per history, every mutating method both accepted (right signer) and rejected (wrong signer classes: revoked key, key without auth right, other identity, controller/own key mismatch, empty, bad index, group proofs below threshold ...): success while the model says unauthorised, any change of a revoked id, a failed call changing state, and disagreement of getKeyState / getPublicKeysJson / getControllerJson / getDocumentJson with the model are violations. 12k / 400k evaluations.",
+    "pre-fork V0 key storage and threshold-0 groups outside the domain")
